@@ -224,6 +224,15 @@ def worker_main(argv):
         r = Runner(mod, tier)
         deadline = t0 + wall
         budget_hit = False
+        # tool mode for seed suites (never used by a registered command): the first violation of any shard ends the search
+        stopfile = os.environ.get("VF_STOPFILE")
+
+        def stop_now():
+            if not stopfile:
+                return False
+            if r.violations and not os.path.exists(stopfile):
+                open(stopfile, "w").close()
+            return os.path.exists(stopfile)
 
         # 1. enumerated cases, round-robin over shards
         enum = getattr(mod, "enumerate_cases", None)
@@ -237,6 +246,9 @@ def worker_main(argv):
                     break
                 n_enum += 1
                 r.record(case)
+                if stop_now():
+                    budget_hit = True
+                    break
 
         # 2. generated cases (collect mode: violations are recorded, generation goes on)
         strat = mod.strategy(tier) if getattr(mod, "strategy", None) else None
@@ -252,6 +264,8 @@ def worker_main(argv):
                     raise StopRun()
                 n_gen += 1
                 r.record(case)
+                if stop_now():
+                    raise StopRun()
 
             test = hypothesis.seed(hseed)(hyp_settings(budget, False)(given(strat)(collect)))
             try:
@@ -270,7 +284,7 @@ def worker_main(argv):
                 cands = [(len(jdump(c)), m, c) for k, m, c in r.violations if k == kind]
                 cands.sort(key=lambda x: x[0])
                 best = {"kind": kind, "msg": cands[0][1], "case": cands[0][2], "shrunk": False}
-                if strat is not None and tier != "replay":
+                if strat is not None and tier != "replay" and not stopfile:
                     import hypothesis
                     from hypothesis import given
 
@@ -453,6 +467,11 @@ def main(argv=None):
     wall = float(os.environ.get("VF_WALL", wall))
     os.makedirs(WORK, exist_ok=True)
     procs = []
+    failfast = bool(os.environ.get("VF_FAILFAST"))
+    if failfast:
+        os.environ["VF_STOPFILE"] = os.path.join(WORK, f"{pid}-{os.getpid()}.stop")
+        if violations:
+            nshards = 0  # a committed replay already fails: nothing more to learn in this mode
     for s in range(nshards):
         out = os.path.join(WORK, f"{pid}-{os.getpid()}-{s}.json")
         cmd = [sys.executable, "-m", "vf.worker", pid, args.tier, str(seed), str(s), str(nshards), str(per), str(wall), out]
@@ -478,6 +497,8 @@ def main(argv=None):
         else:
             errors.append("worker died without a result: " + (err or b"").decode(errors="replace")[-2000:])
 
+    if failfast and os.path.exists(os.environ["VF_STOPFILE"]):
+        os.remove(os.environ["VF_STOPFILE"])
     evaluations = sum(r["evaluations"] for r in results)
     nt = set()
     labels = Counter()
@@ -533,7 +554,7 @@ def main(argv=None):
     }
     if getattr(mod, "EXHAUSTIVE", None):
         cov["exhaustive"] = bool(mod.EXHAUSTIVE if not callable(mod.EXHAUSTIVE) else mod.EXHAUSTIVE(args.tier)) and not cov["budget_hit"]
-    scratch = os.path.realpath(env.REPO) != "/repo" or args.budget is not None or bool(os.environ.get("VERIF_SEEDED"))
+    scratch = os.path.realpath(env.REPO) != "/repo" or args.budget is not None or bool(os.environ.get("VERIF_SEEDED")) or bool(os.environ.get("VF_FAILFAST"))
     write_evidence(mod, args.tier, seed, cov, time.time() - t0, len(violations), scratch=scratch)
 
     for line in known_lines:
